@@ -151,8 +151,18 @@ def static_problems(res: T.Resolver, d: dict, allow_unregulated: bool = False) -
                 out += type_problems(t, "variant" if s.get("union") else "field")
             else:
                 out += type_problems(t, "const")
-                if not type_problems(t, "const") and not const_value_ok(t, it[4]):
-                    out.append("const-value:" + name)
+                if not type_problems(t, "const"):
+                    try:
+                        val = T.item_value(res, d, si, it)
+                    except KeyError:
+                        out.append("const-undefined:" + name)
+                        val = None
+                    if val is not None and not const_value_ok(t, val):
+                        out.append("const-value:" + name)
+                if isinstance(it[4], dict) and "xref" in it[4]:
+                    xk = it[4]["xref"][0]
+                    if xk not in res.defs:
+                        out.append("undefined:" + xk)
             for r in T.refs_in(t):
                 if r not in res.defs:
                     out.append("undefined:" + r)
